@@ -141,6 +141,8 @@ type Ctx struct {
 	externUsed map[string]bool
 	rec        map[string]string // when non-nil: component keys (with sorts) read during spec evaluation
 	opTmpl     map[string]*opTemplate
+	opReveal   map[string]*opTemplate // revealed bodies per (predicate, reveal set)
+	tmplHide   bool                   // evaluating a signature template: nested opaque predicates stay atoms
 	inlineExtra map[string]bool
 	top        *FuncContract
 	havocAlloc string
@@ -492,6 +494,9 @@ func (c *Ctx) nilSliceFacts(v Val) {
 	}
 	if _, ok := v.T.Underlying().(*types.Slice); ok && len(v.L) == 3 {
 		key := "nsf:" + v.L[0] + v.L[2]
+		if strings.Contains(key, "!q") {
+			return // under a binder: the instance would mention the bound variable
+		}
 		if c.declared[key] {
 			return
 		}
